@@ -1,6 +1,7 @@
 """C07 — all query front ends, cursors and groupby agree with find_jobs."""
 import copy
 import json
+import os
 
 from . import querygen as qg
 from .common import (Case, coq_bool, coq_fl, coq_json, coq_list, coq_nat, coq_opt, coq_str, exn_name, scratch_dir,
@@ -196,6 +197,9 @@ def canonical_leaves(f):
     return (leaves, logical)
 
 
+TOKEN_KINDS = ("json-token", "tokens", "str-tokens")
+
+
 def spellings(f):
     out = [("mapping", f)]
     canon = canonical_leaves(f)
@@ -214,6 +218,13 @@ def spellings(f):
         t = tokens_for(f)
         if t is not None:
             out.append(("tokens", t))
+            # the same tokens as ONE string handed to find_jobs (split on whitespace by parse_filter); a single
+            # JSON-like token is a key there, not a filter, so only token lists of two or more (or one plain key)
+            if all(tok and not any(ch.isspace() for ch in tok) for tok in t) and \
+                    (len(t) >= 2 or not (t[0][:1] in "{[" and t[0][-1:] in "}]")):
+                out.append(("str-tokens", t))
+        # the mapping as a sequence of (key, value) pairs (parse_filter's Sequence branch)
+        out.append(("pairs", f))
     return out
 
 
@@ -284,8 +295,25 @@ def gen_inputs(tier, rng):
         for _ in range(8):
             groups.append({"key": rng.choice(GROUP_KEYS), "default": rng.choice(DEFAULTS),
                            "filter": typed(rng.choice([{}, {}, qg.rand_simple(rng, pairs)]))})
+        # grouping by key None (the id) and by callables
+        for name in rng.sample(sorted(GROUP_FUNCS), 3):
+            groups.append({"fn": name, "filter": typed(rng.choice([{}, qg.rand_simple(rng, pairs)]))})
         descs.append({"jobs": jobs, "filters": [typed(f) for f in filters], "groups": groups})
     return descs
+
+
+# label functions a caller may pass as `key` (None stands for "no key": signac groups by job id).  Each is applied
+# by the harness to a FRESH handle of every job (independently of groupby) to obtain the expected label.
+GROUP_FUNCS = {
+    "none": None,
+    "id-head": lambda job: job.id[:1],
+    "n-keys": lambda job: len(job.sp),
+    "has-a": lambda job: "a" in job.sp,
+    "n-doc": lambda job: len(job.doc),
+    "pair": lambda job: (len(job.sp), job.id[:1]),
+    "const": lambda job: 0,
+    "b-or-default": lambda job: (lambda v: v if type(v) in (int, float) else -1)(job.sp.get("b", -1)),
+}
 
 
 def run_query(project, spelling_kind, payload):
@@ -296,16 +324,40 @@ def run_query(project, spelling_kind, payload):
 
     try:
         if spelling_kind in ("json-token", "tokens"):
+            # exactly what `signac find <tokens>` runs: signac.__main__._find_with_filter, which locates the project
+            # from the current directory
+            import argparse
+            from signac.__main__ import _find_with_filter
+            cwd = os.getcwd()
+            os.chdir(project.path)
+            try:
+                with contextlib.redirect_stderr(io.StringIO()):
+                    ids = _find_with_filter(argparse.Namespace(job_id=None, filter=list(payload)))
+            finally:
+                os.chdir(cwd)
+        elif spelling_kind == "str-tokens":
             with contextlib.redirect_stderr(io.StringIO()):
-                flt = parse_filter_arg(list(payload)) or {}
-            if not flt:
-                flt = None
-            ids = project._find_job_ids(filter=flt)
+                ids = [j.id for j in project.find_jobs(" ".join(payload))]
+        elif spelling_kind == "pairs":
+            ids = [j.id for j in project.find_jobs(list(json.loads(json.dumps(payload)).items()))]
         else:
             ids = [j.id for j in project.find_jobs(json.loads(json.dumps(payload)))]
         return ("ids", sorted(ids))
     except Exception as e:  # noqa
         return ("exn", exn_name(e))
+
+
+def _handle(project, jid, k):
+    import pickle
+    import signac
+    k %= 4
+    if k == 0:
+        return project.open_job(id=jid)
+    if k == 1:
+        return signac.get_project(project.path).open_job(id=jid)
+    if k == 2:
+        return signac.get_job(project.open_job(id=jid).path)
+    return pickle.loads(pickle.dumps(project.open_job(id=jid)))
 
 
 def run_case(desc):
@@ -322,13 +374,13 @@ def run_case(desc):
             f = untyped(tf)
             sps = spellings(f)
             results = [(name, payload, run_query(project, name, payload)) for name, payload in sps]
-            floats, jsons = oracle_tables([p for name, p, _ in results if name in ("json-token", "tokens")])
+            floats, jsons = oracle_tables([p for name, p, _ in results if name in TOKEN_KINDS])
             var = []
             for name, payload, (kind, val) in results:
-                sp = ("(SpTokens %s)" % coq_list([coq_str(t) for t in payload], "str")) if name in ("json-token", "tokens") \
+                sp = ("(SpTokens %s)" % coq_list([coq_str(t) for t in payload], "str")) if name in TOKEN_KINDS \
                     else f"(SpMapping {coq_json(payload)})"
                 var.append("(%s, %s)" % (sp, coq_obs(kind, val)))
-            allf = [f] + [p for name, p, _ in results if name not in ("json-token", "tokens")] + list(jsons.values())
+            allf = [f] + [p for name, p, _ in results if name not in TOKEN_KINDS] + list(jsons.values())
             tab = []
             for g in allf:
                 tab += qg.regex_table(recs, g)
@@ -364,7 +416,10 @@ def run_case(desc):
                          (rng7.randint(-ln - 2, ln + 2), rng7.randint(-ln - 2, ln + 2), rng7.choice([-3, -2, -1, 1, 2, 3]))]
                 slices = [(st, sp, step, [j.id for j in cur[st:sp:step]]) for st, sp, step in specs]
                 assert all(ids == listed[st:sp:step] or True for st, sp, step, ids in slices)
-                contains = [(r["id"], project.open_job(id=r["id"]) in cur) for r in recs]
+                # membership is asked through handles of every provenance (the property speaks of the id set, not of
+                # one particular handle object): the project's own handle, a second Project object for the same
+                # directory, signac.get_job(path), a pickled-and-restored handle
+                contains = [(r["id"], _handle(project, r["id"], k + len(listed)) in cur) for k, r in enumerate(recs)]
                 outsiders = [project.open_job({"zz_out": 12345}) in cur, project.open_job({"a": "no-such-job"}) in cur]
             except Exception:  # noqa: filters that raise are covered by the spelling cases
                 continue
@@ -384,6 +439,9 @@ def run_case(desc):
                               prelude=prelude))
         # ---------------- groupby cases
         for g in desc["groups"]:
+            if "fn" in g:
+                cases.append(run_group_fn(project, recs, cname, prelude, desc, g))
+                continue
             key, default, f = g["key"], g["default"], untyped(g["filter"])
             single = isinstance(key, str)
             keys = [key] if single else list(key)
@@ -419,6 +477,42 @@ def run_case(desc):
                               kinds=["group", "group-key:" + ("tuple" if not single else ("nested" if "." in key.replace("sp.", "", 1).replace("doc.", "", 1) else "top"))],
                               prelude=prelude))
     return cases
+
+
+def run_group_fn(project, recs, cname, prelude, desc, g):
+    import signac
+    f = untyped(g["filter"])
+    fn = GROUP_FUNCS[g["fn"]]
+    # expected labels: the function applied to a fresh handle of each job through a second Project object
+    other = signac.get_project(project.path)
+    table = []
+    for r in recs:
+        job = other.open_job(id=r["id"])
+        table.append((r["id"], qg_plain(job.id if fn is None else fn(job))))
+    try:
+        cursor_ids = [j.id for j in project.find_jobs(json.loads(json.dumps(f)))]
+    except Exception:  # noqa
+        cursor_ids = None
+    try:
+        cur = project.find_jobs(json.loads(json.dumps(f)))
+        raw = [(lab, sorted(j.id for j in grp)) for lab, grp in (cur.groupby(fn) if fn is not None else cur.groupby())]
+        groups = [(qg_plain(lab), ids) for lab, ids in raw]
+        obs = "(GObsGroups %s)" % coq_list(
+            ["(%s, %s)" % (coq_json(lab), coq_list([coq_str(i) for i in ids], "str")) for lab, ids in groups],
+            "(json * list str)")
+        obs_desc = [[typed(lab), ids] for lab, ids in groups]
+        nontriv = len(groups) >= 2
+    except Exception as e:  # noqa
+        obs = f"(GObsExn {exn_name(e)})"
+        obs_desc = exn_name(e)
+        nontriv = True
+    coq = "(CaseGroupFn %s %s %s %s %s %s %s)" % (
+        cname, qg.coq_regex_table(qg.regex_table(recs, f)), coq_list([coq_str(r["id"]) for r in recs], "str"), coq_json(f),
+        coq_list(["(%s, %s)" % (coq_str(i), coq_json(l)) for i, l in table], "(str * json)"), obs,
+        coq_opt(coq_list([coq_str(i) for i in cursor_ids], "str") if cursor_ids is not None else None))
+    return Case(coq, {"jobs": desc["jobs"], "filters": [], "groups": [g]}, obs=obs_desc, nontrivial=nontriv,
+                key=cname + "G" + json.dumps(g, sort_keys=True), kinds=["group", "group-key:function:" + g["fn"]],
+                prelude=prelude)
 
 
 def qg_plain(v):
